@@ -156,8 +156,10 @@ def orderLine : Option (Nat × Nat × OrderOutcome) → String
 
 def evLines (ev : Events) : List String := [orderLine ev.order, balLine ev.balance, tradeLine ev.trade]
 
+/-- `snap<exchange index> <asset index>:<amount> …` (one key per exchange, so that the spec can
+speak about one exchange and stay silent about another) -/
 def snapLine (s : Nat × List (Nat × Rat)) : String :=
-  " ".intercalate (["snap", n2s s.1] ++ (isort (·.1) s.2).map fun b => n2s b.1 ++ ":" ++ fmtRat b.2)
+  " ".intercalate (["snap" ++ n2s s.1] ++ (isort (·.1) s.2).map fun b => n2s b.1 ++ ":" ++ fmtRat b.2)
 
 def txmapLine (t : ExecMap.TxMap) : String :=
   " ".intercalate ("txmap" :: t.map fun s => n2s s.1 ++ ":" ++ (if s.2.isSome then "1" else "0"))
@@ -177,6 +179,8 @@ structure St where
   silent : List Nat := []
   /-- spec driver only: exchange ids an execution was added for -/
   linked : List Nat := []
+  /-- spec driver only: exchange ids with a MOCK execution (covered by the spec or not) -/
+  mocked : List Nat := []
 
 def modifyAt {α : Type} (l : List α) (p : Nat) (f : α → Option α) : Option (List α) :=
   match l[p]? with
@@ -357,8 +361,14 @@ def spec : Drv St where
           let hist := (mocks.filter (specCovers s.defs ii)).map fun c => (c.exchange, c, [])
           -- `exec` only marks "a system is running"; the spec never reads it
           ({ s with adds := [], exec := some default, hist := hist, linked := s.adds.map Add.exchange,
+                    mocked := mocks.map (·.exchange),
                     silent := (mocks.filter fun c => !specCovers s.defs ii c).map (·.exchange) },
-           ["handles " ++ n2s mocks.length ++ " " ++ n2s s.adds.length ++ " " ++ n2s s.adds.length])
+           ["handles " ++ n2s mocks.length ++ " " ++ n2s s.adds.length ++ " " ++ n2s s.adds.length] ++
+           -- the indexed initial account snapshot of every mock exchange the spec speaks about
+           -- (`Props.C04M.init_snapshot_refines_view`)
+           (hist.filterMap fun h =>
+             (ii.exchanges.find? fun x => x.value == h.1).map fun x =>
+               snapLine (x.key, specSnapshot ii h.2.1)))
     | "order" :: r =>
       match parseOrder r, s.ii, s.exec with
       | some o, some ii, some _ =>
@@ -368,7 +378,22 @@ def spec : Drv St where
           if !s.linked.contains x.value then (s, ["r err"]) else
           if s.silent.contains x.value then (s, []) else
           match s.hist.find? (fun h => h.1 == x.value) with
-          | none => (s, [])
+          | none =>
+            -- a LIVE link (stub client): the request reaches the client of that exchange under the
+            -- instrument's exchange NAME (index → name needs no uniqueness); the stub rejects it and
+            -- the order snapshot comes back under (exchange index, instrument index) provided the
+            -- name translates back, i.e. instrument names are unambiguous on that exchange
+            if s.mocked.contains x.value then (s, []) else
+            match ii.instruments[o.instrument]? with
+            | none => ({ s with silent := x.value :: s.silent }, ["r mpanic"])
+            | some ins =>
+              if ins.value.exchange.value != x.value then
+                ({ s with silent := x.value :: s.silent }, ["r mpanic"])
+              else
+                (s, ["r live " ++ n2s x.value ++ " " ++ n2s ins.value.nameExchange] ++
+                  (if decide (UniqueNames s.defs x.value)
+                    then [orderLine (some (o.exchange, o.instrument, .rejected))] else []) ++
+                  ["bal none", "trade none"])
           | some (_, c, acc) =>
             match ii.instruments[o.instrument]? with
             | none => ({ s with silent := x.value :: s.silent }, ["r mpanic"])
@@ -378,7 +403,11 @@ def spec : Drv St where
               else
                 let first := "r mock"
                 match specObserve ii c acc o with
-                | none => (s, [first, "bal none", "trade none"])
+                | none =>
+                  -- no fill prescribed: nothing changes, and the order snapshot says why
+                  -- (`Props.C04M.reject_outcome_refines_view`)
+                  (s, [first, "bal none", "trade none",
+                       orderLine (some (o.exchange, o.instrument, specOutcome ii c acc o))])
                 | some (a, b, tr) =>
                   ({ s with hist := s.hist.map fun h =>
                       if h.1 == x.value then (h.1, h.2.1, specNext ii c h.2.2 o) else h },
